@@ -406,3 +406,49 @@ def c17_5(R):
             R.ok("death-fin-only-if-not-closed", j.name)
         else:
             R.fail([j.name, "fin-not-guarded-by(!is_local_fin_or_later)"], "the death path can emit a FIN although the connection is already closed/closing (a RESET would be answered)", where=t.where(), instance="death-fin-only-if-not-closed")
+
+
+@rule("C17.6", ["C17", "C06", "C02"], ["E2", "E7"], "an unacknowledged FIN is retransmitted on timeout in every state that has one",
+      "On the RTO-expired path of send_tx_queue with no data segment left, maybe_send_fin is reached for every connection state in which our FIN is unacknowledged - {FinWait1, LastAck}, the variant "
+      "table of our_fin_if_unacked() = Some - i.e. the guard of that call, evaluated over the state variants, covers both; the 'nothing to send' arm (which turns the retransmit timer off for good) is "
+      "therefore unreachable in those states.")
+def c17_6(R):
+    from .c05 import STQ
+    from utpsa.discr import fn_variant_classes
+    b = R.body(STQ)
+    tab = fn_variant_classes(R.body(SE + "::our_fin_if_unacked"))
+    R.require(tab is not None and tab.get("Some"), "variant table of our_fin_if_unacked")
+    need = set(tab["Some"])
+    calls = [t for t in b.calls() if call_matches(t, (VS + "::maybe_send_fin",))]
+    R.floor("maybe_send_fin on the RTO path of send_tx_queue", len(calls), 1)
+    for t in calls:
+        covered = None
+        pred = []
+        expired = False
+        for c, truth, d, term_, tgt_, lab_ in controlling(b, t.bb):
+            if d == "call:Timer::expired=true":
+                expired = True
+            if c.kind == "discr":
+                tr = c.trace
+                vs = None
+                if tr.kind == "call" and not tr.fields and tr.root[1].j.get("res_local") and tr.root[1].args and trace(b, tr.root[1].args[0]).last_field == "VirtualSocket.state":
+                    tbl = fn_variant_classes(R.body(tr.root[1].resolved))
+                    var = d.split("=")[-1]
+                    vs = set(tbl.get(var, set())) if tbl else set()
+                    pred.append("%s=%s" % (tr.root[1].resolved.split("::")[-1], var))
+                elif tr.last_field == "VirtualSocket.state" and c.enum == SE:
+                    vs = set(d.split("=")[-1].split("|"))
+                    pred.append("state=" + d.split("=")[-1])
+                if vs is not None:
+                    covered = vs if covered is None else covered & vs
+        if not expired:
+            R.fail([STQ, "fin-rto-path-not-under(retransmit.expired)"], "the FIN retransmission is no longer on the RTO-expired path", where=t.where(), instance="fin-rto-covers-states")
+            continue
+        if covered is None:
+            covered = set(need)
+        if need <= covered:
+            R.ok("fin-rto-covers-states", STQ, "FIN retransmitted on RTO in %s (guard %s)" % (",".join(sorted(need)), " && ".join(pred)))
+        else:
+            R.fail([STQ, "fin-rto-guard", " && ".join(pred), "not-retransmitted-in=" + ",".join(sorted(need - covered))],
+                   "on a timeout the FIN is retransmitted only under %s, which excludes state(s) %s where our FIN is also unacknowledged: there the 'nothing to send' arm switches the retransmit timer off and a lost FIN is never repaired" % (" && ".join(pred), ", ".join(sorted(need - covered))),
+                   where=t.where(), instance="fin-rto-covers-states")
